@@ -197,12 +197,49 @@ theorem dtype_structy : ∀ (n : Nat) (v : Val), v.w ≤ n → Val.Structy cfg v
 /-- side conditions of C01 on a type -/
 def Ty.Good (cfg : Cfg) (sfh : Bool) (t : Ty) : Prop := t.Frag sfh ∧ Ty.WF cfg t ∧ t.US
 
-/-- `commonType` (rule off) is an upper bound that stays within the side conditions of C01 — the obligation on `commonality.go` that the
-    fold invariant of `PType()` needs; `C04_common_*` prove parts of it -/
-structure CommonUB (cfg : Cfg) (sfh : Bool) : Prop where
-  closed : ∀ a b, Ty.Good cfg sfh a → Ty.Good cfg sfh b → Ty.Good cfg sfh (commonType cfg sfh a b)
-  left : ∀ a b, Ty.Good cfg sfh a → Ty.Good cfg sfh b → asg cfg sfh (commonType cfg sfh a b) a = true
-  right : ∀ a b, Ty.Good cfg sfh a → Ty.Good cfg sfh b → asg cfg sfh (commonType cfg sfh a b) b = true
+/-- A family `G` of types (with `TV` the types admitted as type VALUES) on which `commonType` is a well-behaved upper bound — the
+    obligation on `commonality.go` that the fold invariant of `PType()` needs: `G` lies within the side conditions of C01, is closed
+    under `commonType`, `commonType` accepts both arguments, and `G` holds the inferred types of the leaves and is closed under the
+    Array / Hash / Sensitive wrapping that `PType()` applies. -/
+structure InferFam (cfg : Cfg) (sfh : Bool) (G TV : Ty → Prop) : Prop where
+  good : ∀ t, G t → Ty.Good cfg sfh t
+  closed : ∀ a b, G a → G b → G (commonType cfg sfh a b)
+  left : ∀ a b, G a → G b → asg cfg sfh (commonType cfg sfh a b) a = true
+  right : ∀ a b, G a → G b → asg cfg sfh (commonType cfg sfh a b) b = true
+  leaf : G .undef ∧ G .dflt ∧ (∀ b, G (.bool (some b))) ∧ (∀ i, G (.int ⟨i, i⟩)) ∧ (∀ f, G (.float f f)) ∧ (∀ s, G (.strVal s)) ∧
+    (∀ s, G (.regexp s)) ∧ G .bin ∧ (∀ n, G (.tspan ⟨n, n⟩)) ∧ (∀ p, G (.object (some p)))
+  typv : ∀ t, TV t → G (.typ t) ∧ asg cfg sfh t t = true
+  sens : ∀ t, G t → G (.sensitive t)
+  arr0 : G (.array .unit ⟨0, 0⟩)
+  arr : ∀ e r, G e → G (.array e r)
+  hash0 : G (.hash .unit .unit ⟨0, 0⟩)
+  hash : ∀ k v r, G k → G v → G (.hash k v r)
+
+/-- every type used as a value inside `v` satisfies `TV` -/
+inductive Val.AllTyp (TV : Ty → Prop) : Val → Prop
+  | undef : Val.AllTyp TV .undef
+  | dflt : Val.AllTyp TV .dflt
+  | bool (b) : Val.AllTyp TV (.bool b)
+  | int (i) : Val.AllTyp TV (.int i)
+  | float (f) : Val.AllTyp TV (.float f)
+  | str (s) : Val.AllTyp TV (.str s)
+  | regexp (s) : Val.AllTyp TV (.regexp s)
+  | binary (b) : Val.AllTyp TV (.binary b)
+  | tspan (n) : Val.AllTyp TV (.tspan n)
+  | typ (t) : TV t → Val.AllTyp TV (.typ t)
+  | obj (p) : Val.AllTyp TV (.obj p)
+  | sensitive (v) : Val.AllTyp TV v → Val.AllTyp TV (.sensitive v)
+  | array (vs) : (∀ x ∈ vs, Val.AllTyp TV x) → Val.AllTyp TV (.array vs)
+  | hash (es : List (Val × Val)) : (∀ e ∈ es, Val.AllTyp TV e.1) → (∀ e ∈ es, Val.AllTyp TV e.2) → Val.AllTyp TV (.hash es)
+
+theorem Val.AllTyp.elems {TV : Ty → Prop} {vs : List Val} (h : Val.AllTyp TV (.array vs)) : ∀ x ∈ vs, Val.AllTyp TV x := by
+  cases h with | array _ h => exact h
+theorem Val.AllTyp.keys {TV : Ty → Prop} {es : List (Val × Val)} (h : Val.AllTyp TV (.hash es)) : ∀ e ∈ es, Val.AllTyp TV e.1 := by
+  cases h with | hash _ h _ => exact h
+theorem Val.AllTyp.vals {TV : Ty → Prop} {es : List (Val × Val)} (h : Val.AllTyp TV (.hash es)) : ∀ e ∈ es, Val.AllTyp TV e.2 := by
+  cases h with | hash _ _ h => exact h
+theorem Val.AllTyp.inner {TV : Ty → Prop} {v : Val} (h : Val.AllTyp TV (.sensitive v)) : Val.AllTyp TV v := by
+  cases h with | sensitive _ h => exact h
 
 theorem Ty.TF.us : ∀ (n : Nat) (t : Ty), t.w ≤ n → t.TF → t.US := by
   intro n
@@ -232,11 +269,11 @@ theorem ptypeFoldV_eq (sfh : Bool) (acc : Ty) (es : List (Val × Val)) :
   | cons e es ih => obtain ⟨k, v⟩ := e; unfold ptypeFoldV; simp only [List.map_cons]; unfold ptypeFold; exact ih _
 
 /-- the fold invariant of `privateReducedType`: every element seen so far is an instance of the accumulator -/
-theorem ptypeFold_inv (hl : ∀ s, (cfg.lower s).length = s.length) (U : CommonUB cfg sfh) :
-    ∀ (vs : List Val) (acc : Ty) (seen : List Val), Ty.Good cfg sfh acc →
+theorem ptypeFold_inv (hl : ∀ s, (cfg.lower s).length = s.length) (G TV : Ty → Prop) (U : InferFam cfg sfh G TV) :
+    ∀ (vs : List Val) (acc : Ty) (seen : List Val), G acc →
       (∀ x ∈ seen, inst cfg sfh acc x = true ∧ x.OK ∧ Val.TyOK cfg x) →
-      (∀ x ∈ vs, inst cfg sfh (ptype cfg sfh x) x = true ∧ Ty.Good cfg sfh (ptype cfg sfh x) ∧ x.OK ∧ Val.TyOK cfg x) →
-      Ty.Good cfg sfh (ptypeFold cfg sfh acc vs) ∧ ∀ x ∈ seen ++ vs, inst cfg sfh (ptypeFold cfg sfh acc vs) x = true := by
+      (∀ x ∈ vs, inst cfg sfh (ptype cfg sfh x) x = true ∧ G (ptype cfg sfh x) ∧ x.OK ∧ Val.TyOK cfg x) →
+      G (ptypeFold cfg sfh acc vs) ∧ ∀ x ∈ seen ++ vs, inst cfg sfh (ptypeFold cfg sfh acc vs) x = true := by
   intro vs
   induction vs with
   | nil =>
@@ -250,14 +287,17 @@ theorem ptypeFold_inv (hl : ∀ s, (cfg.lower s).length = s.length) (U : CommonU
     have hg' := U.closed acc _ hg hv2
     have hl' := U.left acc _ hg hv2
     have hr' := U.right acc _ hg hv2
+    have gA := U.good _ hg
+    have gV := U.good _ hv2
+    have gC := U.good _ hg'
     have := ih (commonType cfg sfh acc (ptype cfg sfh v)) (seen ++ [v]) hg'
       (by
         intro x hx
         simp only [List.mem_append, List.mem_singleton] at hx
         rcases hx with hx | rfl
         · obtain ⟨h1, h2, h3⟩ := hseen x hx
-          exact ⟨sound_all cfg sfh hl _ _ acc x (Nat.le_refl _) ⟨hg'.1, hg.1, hg'.2.1, hg.2.1, hg.2.2, h2, h3⟩ hl' h1, h2, h3⟩
-        · exact ⟨sound_all cfg sfh hl _ _ _ x (Nat.le_refl _) ⟨hg'.1, hv2.1, hg'.2.1, hv2.2.1, hv2.2.2, hv3, hv4⟩ hr' hv1, hv3, hv4⟩)
+          exact ⟨sound_all cfg sfh hl _ _ acc x (Nat.le_refl _) ⟨gC.1, gA.1, gC.2.1, gA.2.1, gA.2.2, h2, h3⟩ hl' h1, h2, h3⟩
+        · exact ⟨sound_all cfg sfh hl _ _ _ x (Nat.le_refl _) ⟨gC.1, gV.1, gC.2.1, gV.2.1, gV.2.2, hv3, hv4⟩ hr' hv1, hv3, hv4⟩)
       (fun x hx => hvs x (by simp [hx]))
     refine ⟨this.1, fun x hx => this.2 x ?_⟩
     simp only [List.mem_append, List.mem_cons] at hx
@@ -271,117 +311,106 @@ theorem good_leaf (t : Ty) (h : match t with
     | _ => False) : Ty.Good cfg sfh t := by
   cases t <;> simp only [] at h <;> (first | contradiction | (refine ⟨?_, ?_, ?_⟩ <;> simp [Ty.Frag, Ty.WF, Ty.US]))
 
-/-- first law, given that `commonType` is an upper bound: by induction on the value, with the fold invariant -/
-theorem ptype_inst (hl : ∀ s, (cfg.lower s).length = s.length) (U : CommonUB cfg sfh) :
-    ∀ (n : Nat) (v : Val), v.w ≤ n → v.OK → Val.TyOK cfg v →
-      inst cfg sfh (ptype cfg sfh v) v = true ∧ Ty.Good cfg sfh (ptype cfg sfh v) := by
+/-- first law, given a family on which `commonType` is a well-behaved upper bound: by induction on the value, with the fold invariant -/
+theorem ptype_inst (hl : ∀ s, (cfg.lower s).length = s.length) (G TV : Ty → Prop) (U : InferFam cfg sfh G TV) :
+    ∀ (n : Nat) (v : Val), v.w ≤ n → v.OK → Val.TyOK cfg v → Val.AllTyp TV v →
+      inst cfg sfh (ptype cfg sfh v) v = true ∧ G (ptype cfg sfh v) := by
   intro n
   induction n with
   | zero => intro v h; have : 0 < v.w := by cases v <;> simp [Val.w] <;> omega
             omega
   | succ n ih =>
-    intro v hw ok tv
+    intro v hw ok tv at'
+    obtain ⟨l1, l2, l3, l4, l5, l6, l7, l8, l9, l10⟩ := U.leaf
     cases v with
-    | undef => unfold ptype; exact ⟨by unfold inst; rfl, good_leaf cfg sfh _ trivial⟩
-    | dflt => unfold ptype; exact ⟨by unfold inst; rfl, good_leaf cfg sfh _ trivial⟩
-    | bool b => unfold ptype; exact ⟨by unfold inst; simp, good_leaf cfg sfh _ trivial⟩
-    | int i => unfold ptype; exact ⟨by unfold inst; simp [Rng.contains], good_leaf cfg sfh _ trivial⟩
-    | float f => unfold ptype; exact ⟨by unfold inst; simp, good_leaf cfg sfh _ trivial⟩
-    | str s => unfold ptype; exact ⟨by unfold inst; simp, good_leaf cfg sfh _ trivial⟩
-    | regexp s => unfold ptype; exact ⟨by unfold inst; simp, good_leaf cfg sfh _ trivial⟩
-    | binary s => unfold ptype; exact ⟨by unfold inst; rfl, good_leaf cfg sfh _ trivial⟩
-    | tspan s => unfold ptype; exact ⟨by unfold inst; simp [Rng.contains], good_leaf cfg sfh _ trivial⟩
-    | obj p => unfold ptype; exact ⟨by unfold inst; simp [isPrefix_refl], good_leaf cfg sfh _ trivial⟩
+    | undef => unfold ptype; exact ⟨by unfold inst; rfl, l1⟩
+    | dflt => unfold ptype; exact ⟨by unfold inst; rfl, l2⟩
+    | bool b => unfold ptype; exact ⟨by unfold inst; simp, l3 b⟩
+    | int i => unfold ptype; exact ⟨by unfold inst; simp [Rng.contains], l4 i⟩
+    | float f => unfold ptype; exact ⟨by unfold inst; simp, l5 f⟩
+    | str s => unfold ptype; exact ⟨by unfold inst; simp, l6 s⟩
+    | regexp s => unfold ptype; exact ⟨by unfold inst; simp, l7 s⟩
+    | binary s => unfold ptype; exact ⟨by unfold inst; rfl, l8⟩
+    | tspan s => unfold ptype; exact ⟨by unfold inst; simp [Rng.contains], l9 s⟩
+    | obj p => unfold ptype; exact ⟨by unfold inst; simp [isPrefix_refl], l10 p⟩
     | typ t =>
-      cases tv with
-      | typ _ htf hwf =>
+      cases at' with
+      | typ _ htv =>
         unfold ptype
-        refine ⟨?_, ?_, ?_, ?_⟩
-        · unfold inst; exact asg_refl cfg sfh t.w t (Nat.le_refl _) hwf (Ty.TF.noAlias t.w t (Nat.le_refl _) htf)
-        · unfold Ty.Frag; exact htf
-        · unfold Ty.WF; exact hwf
-        · unfold Ty.US; exact Ty.TF.us t.w t (Nat.le_refl _) htf
+        obtain ⟨h1, h2⟩ := U.typv t htv
+        exact ⟨by unfold inst; exact h2, h1⟩
     | sensitive x =>
       simp only [Val.w] at hw
-      obtain ⟨h1, h2⟩ := ih x (by omega) ok.inner tv.inner
+      obtain ⟨h1, h2⟩ := ih x (by omega) ok.inner tv.inner at'.inner
       unfold ptype
-      refine ⟨by unfold inst; exact h1, ?_, ?_, ?_⟩
-      · unfold Ty.Frag; exact h2.1
-      · unfold Ty.WF; exact h2.2.1
-      · unfold Ty.US; exact h2.2.2
+      exact ⟨by unfold inst; exact h1, U.sens _ h2⟩
     | array vs =>
       simp only [Val.w] at hw
       cases vs with
       | nil =>
         unfold ptype
-        refine ⟨by unfold inst; simp [Rng.contains, instAll], ?_, ?_, ?_⟩ <;> simp [Ty.Frag, Ty.WF, Ty.US]
+        exact ⟨by unfold inst; simp [Rng.contains, instAll], U.arr0⟩
       | cons x xs =>
-        have hel : ∀ y ∈ x :: xs, inst cfg sfh (ptype cfg sfh y) y = true ∧ Ty.Good cfg sfh (ptype cfg sfh y) ∧ y.OK ∧ Val.TyOK cfg y := by
+        have hel : ∀ y ∈ x :: xs, inst cfg sfh (ptype cfg sfh y) y = true ∧ G (ptype cfg sfh y) ∧ y.OK ∧ Val.TyOK cfg y := by
           intro y hy
-          obtain ⟨h1, h2⟩ := ih y (by have := Val.w_lt_wl hy; omega) (ok.elems y hy) (tv.elems y hy)
+          obtain ⟨h1, h2⟩ := ih y (by have := Val.w_lt_wl hy; omega) (ok.elems y hy) (tv.elems y hy) (at'.elems y hy)
           exact ⟨h1, h2, ok.elems y hy, tv.elems y hy⟩
         obtain ⟨hx1, hx2, hx3, hx4⟩ := hel x (by simp)
-        have inv := ptypeFold_inv cfg sfh hl U xs (ptype cfg sfh x) [x] hx2
+        have inv := ptypeFold_inv cfg sfh hl G TV U xs (ptype cfg sfh x) [x] hx2
           (by intro y hy; simp at hy; subst hy; exact ⟨hx1, hx3, hx4⟩) (fun y hy => hel y (by simp [hy]))
         unfold ptype
-        refine ⟨?_, ?_, ?_, ?_⟩
-        · unfold inst
-          simp only [Bool.and_eq_true, Bool.or_eq_true]
-          refine ⟨by simp [Rng.exact, Rng.contains], Or.inr ?_⟩
-          rw [instAll_iff]
-          exact fun y hy => inv.2 y (by simpa using hy)
-        · unfold Ty.Frag; exact inv.1.1
-        · unfold Ty.WF; exact inv.1.2.1
-        · unfold Ty.US; right; exact inv.1.2.2
+        refine ⟨?_, U.arr _ _ inv.1⟩
+        unfold inst
+        simp only [Bool.and_eq_true, Bool.or_eq_true]
+        refine ⟨by simp [Rng.exact, Rng.contains], Or.inr ?_⟩
+        rw [instAll_iff]
+        exact fun y hy => inv.2 y (by simpa using hy)
     | hash es =>
       simp only [Val.w] at hw
       cases es with
       | nil =>
         unfold ptype
-        refine ⟨by unfold inst; simp [Rng.contains, instEntries], ?_, ?_, ?_⟩ <;> simp [Ty.Frag, Ty.WF, Ty.US]
+        exact ⟨by unfold inst; simp [Rng.contains, instEntries], U.hash0⟩
       | cons e0 es0 =>
         obtain ⟨k0, v0⟩ := e0
-        have hk : ∀ y ∈ ((k0, v0) :: es0).map (·.1), inst cfg sfh (ptype cfg sfh y) y = true ∧ Ty.Good cfg sfh (ptype cfg sfh y) ∧ y.OK ∧ Val.TyOK cfg y := by
+        have hk : ∀ y ∈ ((k0, v0) :: es0).map (·.1), inst cfg sfh (ptype cfg sfh y) y = true ∧ G (ptype cfg sfh y) ∧ y.OK ∧ Val.TyOK cfg y := by
           intro y hy
           simp only [List.mem_map] at hy
           obtain ⟨e, he, rfl⟩ := hy
           have hwe := Val.w_lt_we he
-          obtain ⟨h1, h2⟩ := ih e.1 (by omega) (ok.keys e he) (tv.keys e he)
+          obtain ⟨h1, h2⟩ := ih e.1 (by omega) (ok.keys e he) (tv.keys e he) (at'.keys e he)
           exact ⟨h1, h2, ok.keys e he, tv.keys e he⟩
-        have hv : ∀ y ∈ ((k0, v0) :: es0).map (·.2), inst cfg sfh (ptype cfg sfh y) y = true ∧ Ty.Good cfg sfh (ptype cfg sfh y) ∧ y.OK ∧ Val.TyOK cfg y := by
+        have hv : ∀ y ∈ ((k0, v0) :: es0).map (·.2), inst cfg sfh (ptype cfg sfh y) y = true ∧ G (ptype cfg sfh y) ∧ y.OK ∧ Val.TyOK cfg y := by
           intro y hy
           simp only [List.mem_map] at hy
           obtain ⟨e, he, rfl⟩ := hy
           have hwe := Val.w_lt_we he
-          obtain ⟨h1, h2⟩ := ih e.2 (by omega) (ok.vals e he) (tv.vals e he)
+          obtain ⟨h1, h2⟩ := ih e.2 (by omega) (ok.vals e he) (tv.vals e he) (at'.vals e he)
           exact ⟨h1, h2, ok.vals e he, tv.vals e he⟩
         obtain ⟨hk1, hk2, hk3, hk4⟩ := hk k0 (by simp)
         obtain ⟨hv1, hv2, hv3, hv4⟩ := hv v0 (by simp)
-        have invK := ptypeFold_inv cfg sfh hl U (es0.map (·.1)) (ptype cfg sfh k0) [k0] hk2
+        have invK := ptypeFold_inv cfg sfh hl G TV U (es0.map (·.1)) (ptype cfg sfh k0) [k0] hk2
           (by intro y hy; simp at hy; subst hy; exact ⟨hk1, hk3, hk4⟩) (fun y hy => hk y (by simp at hy ⊢; right; exact hy))
-        have invV := ptypeFold_inv cfg sfh hl U (es0.map (·.2)) (ptype cfg sfh v0) [v0] hv2
+        have invV := ptypeFold_inv cfg sfh hl G TV U (es0.map (·.2)) (ptype cfg sfh v0) [v0] hv2
           (by intro y hy; simp at hy; subst hy; exact ⟨hv1, hv3, hv4⟩) (fun y hy => hv y (by simp at hy ⊢; right; exact hy))
         unfold ptype
         rw [ptypeFoldK_eq, ptypeFoldV_eq]
-        refine ⟨?_, ?_, ?_, ?_⟩
-        · unfold inst
-          simp only [Bool.and_eq_true]
-          refine ⟨by simp [Rng.exact, Rng.contains], ?_⟩
-          rw [instEntries_iff]
-          intro e he
-          constructor
-          · apply invK.2 e.1
-            simp only [List.mem_cons] at he
-            rcases he with rfl | he
-            · simp
-            · simp only [List.singleton_append, List.mem_cons, List.mem_map]; right; exact ⟨e, he, rfl⟩
-          · apply invV.2 e.2
-            simp only [List.mem_cons] at he
-            rcases he with rfl | he
-            · simp
-            · simp only [List.singleton_append, List.mem_cons, List.mem_map]; right; exact ⟨e, he, rfl⟩
-        · unfold Ty.Frag; exact ⟨invK.1.1, invV.1.1⟩
-        · unfold Ty.WF; exact ⟨invK.1.2.1, invV.1.2.1⟩
-        · unfold Ty.US; right; exact ⟨invK.1.2.2, invV.1.2.2⟩
+        refine ⟨?_, U.hash _ _ _ invK.1 invV.1⟩
+        unfold inst
+        simp only [Bool.and_eq_true]
+        refine ⟨by simp [Rng.exact, Rng.contains], ?_⟩
+        rw [instEntries_iff]
+        intro e he
+        constructor
+        · apply invK.2 e.1
+          simp only [List.mem_cons] at he
+          rcases he with rfl | he
+          · simp
+          · simp only [List.singleton_append, List.mem_cons, List.mem_map]; right; exact ⟨e, he, rfl⟩
+        · apply invV.2 e.2
+          simp only [List.mem_cons] at he
+          rcases he with rfl | he
+          · simp
+          · simp only [List.singleton_append, List.mem_cons, List.mem_map]; right; exact ⟨e, he, rfl⟩
 
 end Pcore.Lat
